@@ -3,34 +3,10 @@ C09 — Every strategy terminates within a bounded number of tests.
 (minimize here; the other removal strategies and the rewriting skeleton are added below as
 their models are completed — see DESIGN.md §4 C09 for what is partial.)
 -/
-import LithiumProofs.Minimize
-import LithiumProofs.Util
+import LithiumProofs.MinimizeLog
 
 namespace Strat
 open Testcase
-
-/-- `ceil(log2 n)` -/
-def clog2 (n : Nat) : Nat := if n ≤ 1 then 0 else Nat.log2 (n - 1) + 1
-
-/-- the chunk size minimize starts with has `log2 ≤ ceil(log2 n)` -/
-theorem log2_start_le (mx n : Nat) (hmx : 1 ≤ mx) :
-    1 ≤ min mx (Util.lp2 n) ∧ Nat.log2 (min mx (Util.lp2 n)) ≤ Nat.log2 (n + 1) ∧
-    Nat.log2 (min mx (Util.lp2 n)) ≤ clog2 n := by
-  have hp := Util.lp2_pos n
-  have h1 : 1 ≤ min mx (Util.lp2 n) := by omega
-  have hle : min mx (Util.lp2 n) ≤ Util.lp2 n := by omega
-  have l1 : Nat.log2 1 = 0 := by rw [Nat.log2_def]; simp
-  by_cases hn : n ≤ 1
-  · have := Util.lp2_le_one n hn
-    have h2 : min mx (Util.lp2 n) = 1 := by omega
-    rw [h2]
-    exact ⟨by omega, by omega, by omega⟩
-  · have hlt := Util.lp2_lt n (by omega)
-    have hm := log2_mono (a := min mx (Util.lp2 n)) (b := n - 1) (by omega) (by omega)
-    have hm2 := log2_mono (a := n - 1) (b := n + 1) (by omega) (by omega)
-    refine ⟨h1, by omega, ?_⟩
-    unfold clog2
-    rw [if_neg hn]; omega
 
 /-- minimize, against EVERY interestingness test (`o` may depend on the test index and on the
 bytes in any way: adversarial, inconsistent, always-yes), for every well-formed testcase with
@@ -42,7 +18,7 @@ theorem C09_bound_minimize (cfg : Cfg) (o : Oracle) (clk : Clock) (t : Testcase)
     (hmax : 1 ≤ cfg.max) :
     (minimize cfg o clk t).outOfFuel = false ∧ (minimize cfg o clk t).internalError = false ∧
     (minimize cfg o clk t).nTests + 1 ≤ (t.len + 1) * (t.len + clog2 t.len + 2) + 1 := by
-  obtain ⟨hcs, hl1, hl2⟩ := log2_start_le cfg.max t.len hmax
+  obtain ⟨hcs, hl1, hl2⟩ := log2_start_le' cfg.max t.len hmax
   have hinv : MInv t.len (minInit cfg t) { best := t } := by
     refine ⟨h, hcs, ?_, by simp [minInit], Nat.le_refl _⟩
     show 1 ≤ min (min cfg.max (Util.lp2 t.len)) (max cfg.min 1)
